@@ -261,3 +261,25 @@ Proof.
   intro H. unfold run_bops. rewrite fold_left_app. cbn [fold_left bstep].
   now rewrite run_bops_writes.
 Qed.
+
+(* ---------- client-level history and Clone ---------- *)
+(* whatever the configuration history, a clone dumps with the options in force on the original *)
+Theorem clone_keeps_options_in_force ops :
+  in_force (cclone (run_cops ops)) = in_force (run_cops ops).
+Proof.
+  generalize (run_cops ops). intros [o h l own]. unfold cclone, in_force. cbn [c_opts c_has c_linked c_own].
+  destruct h, l; reflexivity.
+Qed.
+
+(* the dump installed through the Transport-level EnableDump is the one in force, whatever the
+   client-level setters left behind *)
+Theorem transport_enable_is_in_force ops o :
+  in_force (run_cops (ops ++ [CTransportEnable o])) = Some (new_dumper o).
+Proof. unfold run_cops. rewrite fold_left_app. reflexivity. Qed.
+
+Example unguarded_clone_uses_stale_options :
+  let o := mkOpts (Some 10%N) None None None None None None false false true false false in
+  let ops := [CEnableAllTo 17%N; CDisableAll; CTransportEnable o] in
+  in_force (cclone_unguarded (run_cops ops)) <> in_force (run_cops ops) /\
+  in_force (cclone (run_cops ops)) = Some o.
+Proof. split; [vm_compute; discriminate|reflexivity]. Qed.
